@@ -8,6 +8,8 @@ pub fn apply(region: &[u8], d: &Value) -> Vec<u8> {
     let v = d.get("v").and_then(|x| x.as_u64()).unwrap_or(0);
     match op {
         "set8" => { if off < b.len() { b[off] = v as u8; } }
+        // relative: the honest value moved by a small amount (lengths and counts that are off by a little)
+        "add8" => { if off < b.len() { let dlt = d.get("d").and_then(|x| x.as_i64()).unwrap_or(0); b[off] = ((b[off] as i64 + dlt).rem_euclid(256)) as u8; } }
         "set16le" => { if off + 1 < b.len() { b[off] = v as u8; b[off + 1] = (v >> 8) as u8; } }
         "set16be" => { if off + 1 < b.len() { b[off] = (v >> 8) as u8; b[off + 1] = v as u8; } }
         "set32le" => { if off + 3 < b.len() { if let Some(x) = d.get("b").and_then(|x| x.as_array()) { for k in 0..4 { b[off + k] = x[k].as_u64().unwrap_or(0) as u8; } } } }
